@@ -1382,19 +1382,27 @@ impl StoryState {
 
             if let Some(output_stream_obj) = j_object.get("outputStream") {
                 self.current_flow.output_stream = json_read::jarray_to_runtime_obj_list(
-                    output_stream_obj.as_array().unwrap(),
+                    json_read::token_array(output_stream_obj, "outputStream")?,
                     false,
                 )?;
             }
 
             if let Some(current_choices_obj) = j_object.get("currentChoices") {
-                self.current_flow.current_choices = json_read::jarray_to_runtime_obj_list(
-                    current_choices_obj.as_array().unwrap(),
+                let choice_objs = json_read::jarray_to_runtime_obj_list(
+                    json_read::token_array(current_choices_obj, "currentChoices")?,
                     false,
-                )?
-                .iter()
-                .map(|o| o.clone().into_any().downcast::<Choice>().unwrap())
-                .collect();
+                )?;
+                self.current_flow.current_choices.clear();
+                for o in choice_objs {
+                    match o.into_any().downcast::<Choice>() {
+                        Ok(choice) => self.current_flow.current_choices.push(choice),
+                        Err(_) => {
+                            return Err(StoryError::BadJson(
+                                "currentChoices holds something that is not a choice".to_owned(),
+                            ));
+                        }
+                    }
+                }
             }
 
             let j_choice_threads_obj = j_object.get("choiceThreads");
@@ -1417,8 +1425,10 @@ impl StoryState {
         }
 
         if let Some(eval_stack_obj) = j_object.get("evalStack") {
-            self.evaluation_stack =
-                json_read::jarray_to_runtime_obj_list(eval_stack_obj.as_array().unwrap(), false)?;
+            self.evaluation_stack = json_read::jarray_to_runtime_obj_list(
+                json_read::token_array(eval_stack_obj, "evalStack")?,
+                false,
+            )?;
         }
 
         if let Some(current_divert_target_path) = j_object.get("currentDivertTarget") {
